@@ -1,7 +1,1036 @@
-//! C11 — in-circuit STARK verifier agrees with native (see DESIGN.md §C11).
+//! C11 — the in-circuit STARK verifier agrees with the native STARK verifier (DESIGN.md §C11).
+//!
+//! Differential and exact: for one generated STARK definition + `StarkConfig` an outer plonky2
+//! circuit embedding `verify_stark_proof_circuit` is built once (fixed-degree mode, or the mode in
+//! which one circuit sized for a maximum trace length verifies every supported shorter length) and
+//! then fed many proofs: honest ones, value-edited ones (every component class), wrong public
+//! inputs, proofs the real prover emitted for violating traces, proofs of another trace length,
+//! proofs whose transcript lacks the padding the circuit expects, a wrong `degree_bits`
+//! assignment and proofs with an overridden proof-of-work witness.
+//!
+//! native  := `verify_stark_proof(stark, proof, config, verifier_params).is_ok()`
+//!            ∧ the proof's length is the one the circuit was told ∧ that length is supported
+//! circuit := `set_stark_proof_with_pis_target` ∧ `generate_partial_witness` succeed
+//!            ∧ O-sat finds no violated gate row / copy class on the full outer witness
+//! and `native == circuit` is required. When the library's witness generation stops at a copy
+//! conflict, a conflict-tolerant re-run (first value wins) yields a full witness; O-sat must then
+//! name a violated row (a clean report would mean the outer circuit is satisfiable for a proof
+//! the native verifier rejects), and on a sample the real outer prover is run on that witness and
+//! its proof must not verify.
 
-use crate::engine::Ctx;
+use std::collections::BTreeMap;
+use std::sync::Arc;
+
+use plonky2::field::types::Field;
+use plonky2::fri::reduction_strategies::FriReductionStrategy;
+use plonky2::fri::{FriConfig, FriParams};
+use plonky2::gates::gate::GateInstance;
+use plonky2::hash::hash_types::HashOut;
+use plonky2::iop::generator::{generate_partial_witness, GeneratedValues};
+use plonky2::iop::target::Target;
+use plonky2::iop::witness::{PartialWitness, PartitionWitness, WitnessWrite};
+use plonky2::plonk::circuit_builder::CircuitBuilder;
+use plonky2::plonk::circuit_data::{CircuitConfig, CircuitData, CommonCircuitData, ProverOnlyCircuitData};
+use plonky2::iop::challenger::Challenger;
+use plonky2::plonk::config::{GenericConfig, Hasher};
+use plonky2::plonk::prover::prove_with_partition_witness;
+use plonky2::util::timing::TimingTree;
+use plonky2::verif_hooks::{reset_knobs, set_knobs, take_gate_instances, Knobs};
+use proptest::prelude::*;
+use serde::{Deserialize, Serialize};
+use serde_json::{json, Value};
+use starky::config::StarkConfig;
+use starky::proof::{StarkProofWithPublicInputs, StarkProofWithPublicInputsTarget};
+use starky::prover::prove;
+use starky::recursive_verifier::{add_virtual_stark_proof_with_pis, set_stark_proof_with_pis_target, verify_stark_proof_circuit};
+use starky::verifier::verify_stark_proof;
+
+use crate::circuit::PC;
+use crate::engine::{bx, catch, frac, hash_of, Ctx, Stats};
+use crate::gen::dsl::{D, F};
+use crate::gen::field::P;
+use crate::gen::mutate::*;
+use crate::gen::stark::*;
+use crate::oracle::sat;
+use crate::props::common::frac32;
+use crate::with_stark_shape;
+
+type Proof = StarkProofWithPublicInputs<F, PC, D>;
+
+// ------------------------------------------------------------------------------------------
+// case
+// ------------------------------------------------------------------------------------------
+
+#[derive(Clone, Debug, Serialize, Deserialize, PartialEq, Eq, Hash)]
+pub struct RawMulti {
+    /// multi-degree mode (one circuit for a maximum length) or fixed-degree mode
+    pub on: bool,
+    pub a: u16,
+    pub f: u16,
+    pub r: u16,
+    /// cap height above the minimal admissible one
+    pub extra: u16,
+    /// which maximum `degree_bits` of the admissible progression
+    pub k: u16,
+}
+
+#[derive(Clone, Debug, Serialize, Deserialize, PartialEq, Eq, Hash)]
+pub struct RawCopy {
+    pub shifted: bool,
+    pub filter: u8,
+    pub fcol: u16,
+}
+
+#[derive(Clone, Debug, Serialize, Deserialize, PartialEq, Eq, Hash)]
+pub struct RawLookup {
+    pub terms: Vec<(u16, i8)>,
+    pub constant: i8,
+    pub copies: Vec<RawCopy>,
+}
+
+#[derive(Clone, Debug, Serialize, Deserialize, PartialEq, Eq, Hash)]
+pub struct RawProof {
+    pub kind: u8,
+    /// which (supported / other) trace length
+    pub len: u16,
+    /// which wrong `degree_bits` value
+    pub told: u16,
+    /// component class, position in the class, edit kind, value
+    pub cls: u16,
+    pub pos: u32,
+    pub ekind: u8,
+    pub val: u64,
+    /// trace corruption (violating-trace proofs)
+    pub row_class: u8,
+    pub row: u32,
+    pub col: u16,
+    /// < SAMPLE_OUTER: also run the outer prover on the rejected witness
+    pub sample: u8,
+}
+
+#[derive(Clone, Debug, Serialize, Deserialize)]
+pub struct Case {
+    pub stark: RawStark,
+    pub lookups: Vec<RawLookup>,
+    pub multi: RawMulti,
+    pub proofs: Vec<RawProof>,
+}
+
+/// ~5 % of the natively rejected, assignable proofs also go through the real outer prover.
+const SAMPLE_OUTER: u8 = 13;
+/// largest maximum `degree_bits` of a multi-degree circuit
+const MAX_M: usize = 8;
+
+fn raw_multi() -> BoxedStrategy<RawMulti> {
+    bx((any::<bool>(), any::<u16>(), any::<u16>(), any::<u16>(), any::<u16>(), any::<u16>())
+        .prop_map(|(on, a, f, r, extra, k)| RawMulti { on, a, f, r, extra, k }))
+}
+
+fn raw_lookup() -> BoxedStrategy<RawLookup> {
+    let copy = (any::<bool>(), any::<u8>(), any::<u16>()).prop_map(|(shifted, filter, fcol)| RawCopy { shifted, filter, fcol });
+    bx((
+        prop::collection::vec((any::<u16>(), prop_oneof![Just(1i8), Just(-1i8), -3i8..=3i8]), 1..=2),
+        -2i8..=2i8,
+        prop::collection::vec(copy, 1..=4),
+    )
+        .prop_map(|(terms, constant, copies)| RawLookup { terms, constant, copies }))
+}
+
+fn raw_proof() -> BoxedStrategy<RawProof> {
+    bx((
+        (any::<u8>(), any::<u16>(), any::<u16>(), any::<u16>(), any::<u32>(), any::<u8>()),
+        (crate::gen::field::canonical(), any::<u8>(), any::<u32>(), any::<u16>(), any::<u8>()),
+    )
+        .prop_map(|((kind, len, told, cls, pos, ekind), (val, row_class, row, col, sample))| RawProof {
+            kind,
+            len,
+            told,
+            cls,
+            pos,
+            ekind,
+            val,
+            row_class,
+            row,
+            col,
+            sample,
+        }))
+}
+
+fn case(n_proofs: usize) -> BoxedStrategy<Case> {
+    let lookups = prop_oneof![
+        3 => Just(vec![]).boxed(),
+        2 => prop::collection::vec(raw_lookup(), 1..=1).boxed(),
+        1 => prop::collection::vec(raw_lookup(), 2..=2).boxed(),
+    ];
+    bx((raw_stark(), lookups, raw_multi(), prop::collection::vec(raw_proof(), n_proofs..=n_proofs))
+        .prop_map(|(stark, lookups, multi, proofs)| Case { stark, lookups, multi, proofs }))
+}
+
+fn limits(lookups: bool) -> StarkLimits {
+    StarkLimits {
+        min_log_n: 2,
+        max_log_n: 6,
+        min_queries: 1,
+        max_queries: 6,
+        max_pow: 4,
+        // the library's lookup argument batches `constraint_degree - 1` columns and supports batches of 1 or 2 only
+        min_degree: if lookups { 2 } else { 1 },
+        max_degree: if lookups { 3 } else { 9 },
+    }
+}
+
+// ------------------------------------------------------------------------------------------
+// elaboration: lookups, multi-degree configuration
+// ------------------------------------------------------------------------------------------
+
+/// Lookups that hold for *every* trace: each looking column is the table column itself or the table
+/// column one row ahead (cyclically — the same multiset), optionally filtered by a 0/1 column, and the
+/// frequencies column counts the copies. Table and frequencies use current-row cells only (the
+/// library's constraints evaluate them without the next row).
+fn elaborate_lookups(raws: &[RawLookup], cols: usize, roles: &[&'static str]) -> Vec<LookupDef> {
+    let bools: Vec<usize> = (0..cols).filter(|&j| roles[j] == "bool").collect();
+    let const_col = |k: i64| ColDef {
+        lin: vec![(0, 0)],
+        next_lin: vec![],
+        constant: k,
+    };
+    raws.iter()
+        .map(|r| {
+            let mut lin: Vec<(usize, i64)> = vec![];
+            for &(c, k) in &r.terms {
+                let c = frac(c, cols);
+                let k = if k == 0 { 1 } else { k as i64 };
+                match lin.iter_mut().find(|e| e.0 == c) {
+                    Some(e) => {
+                        e.1 += k;
+                        if e.1 == 0 {
+                            e.1 = 1;
+                        }
+                    }
+                    None => lin.push((c, k)),
+                }
+            }
+            let table = ColDef {
+                lin: lin.clone(),
+                next_lin: vec![],
+                constant: r.constant as i64,
+            };
+            let shifted = ColDef {
+                lin: vec![],
+                next_lin: lin.clone(),
+                constant: r.constant as i64,
+            };
+            let mut columns = vec![];
+            let mut filters = vec![];
+            let mut freq_const = 0i64;
+            let mut freq_lin: Vec<(usize, i64)> = vec![];
+            for cp in &r.copies {
+                columns.push(if cp.shifted { shifted.clone() } else { table.clone() });
+                match cp.filter % 3 {
+                    1 if !bools.is_empty() => {
+                        let b = bools[frac(cp.fcol, bools.len())];
+                        filters.push(Some(if cp.shifted {
+                            ColDef {
+                                lin: vec![],
+                                next_lin: vec![(b, 1)],
+                                constant: 0,
+                            }
+                        } else {
+                            ColDef::single(b)
+                        }));
+                        match freq_lin.iter_mut().find(|e| e.0 == b) {
+                            Some(e) => e.1 += 1,
+                            None => freq_lin.push((b, 1)),
+                        }
+                    }
+                    2 => {
+                        filters.push(Some(const_col(1)));
+                        freq_const += 1;
+                    }
+                    _ => {
+                        filters.push(None);
+                        freq_const += 1;
+                    }
+                }
+            }
+            let freq = if freq_lin.is_empty() {
+                const_col(freq_const)
+            } else {
+                ColDef {
+                    lin: freq_lin,
+                    next_lin: vec![],
+                    constant: freq_const,
+                }
+            };
+            LookupDef { columns, table, freq, filters }
+        })
+        .collect()
+}
+
+#[derive(Clone, Debug)]
+struct Mode {
+    multi: bool,
+    config: StarkConfig,
+    /// the circuit's (maximum) `degree_bits`
+    max_bits: usize,
+    min_bits: Option<usize>,
+    /// trace lengths the circuit supports
+    supported: Vec<usize>,
+    /// other lengths for which the prover's own preconditions hold (fixed mode: "wrong length" proofs)
+    others: Vec<usize>,
+    verifier_params: Option<FriParams>,
+    labels: Vec<String>,
+}
+
+fn min_rate_bits(degree: usize) -> usize {
+    match degree {
+        0..=3 => 1,
+        4..=5 => 2,
+        _ => 3,
+    }
+}
+
+/// Is a trace of 2^m rows provable under `config` (the prover's asserts and the Merkle cap fit)?
+fn length_admissible(config: &StarkConfig, m: usize) -> bool {
+    let fc = &config.fri_config;
+    if m + fc.rate_bits < fc.cap_height {
+        return false;
+    }
+    // ConstantArityBits panics inside `reduction_arity_bits` for some (degree, arity) pairs: simulate it
+    if let FriReductionStrategy::ConstantArityBits(a, f) = fc.reduction_strategy {
+        let mut d = m;
+        while d > f {
+            if d + fc.rate_bits < a {
+                return false; // the library's subtraction would underflow
+            }
+            if d + fc.rate_bits - a < fc.cap_height {
+                break;
+            }
+            if d < a {
+                return false;
+            }
+            d -= a;
+        }
+    }
+    let p = config.fri_params(m);
+    p.total_arities() + fc.cap_height <= m + fc.rate_bits && p.total_arities() <= m
+}
+
+/// Multi-degree family (derived from `starky::prover::prove`, `fri::prover`, `set_fri_proof_target`,
+/// `verify_fri_proof_with_multiple_degree_bits` and `reduction_arity_bits`):
+///  * strategy `ConstantArityBits(a, f)`; the circuit's final polynomial must have `2^(f+1)` coefficients,
+///    i.e. the reduction loop for the maximum M must stop at `f+1` through its cap-height condition:
+///    `f+1+r-a < cap <= f+1+r` and `M ≡ f+1 (mod a)`, `M >= f+1`;
+///  * a shorter proof is assignable iff its final polynomial is not longer than the circuit's and it has
+///    no more reduction steps; with `cap = f+2+r-a` that holds for every length, with a larger cap only
+///    for some residues — the supported set is computed from `fri_params` directly;
+///  * `min_degree_bits_to_support + r > cap` (asserted by the circuit);
+///  * the strategy's own `assert!(degree_bits >= arity_bits)` / subtraction need `f >= a-2`, `f+1+r >= a`.
+fn elaborate_mode(case: &Case, el: &ElabStark) -> Mode {
+    if !case.multi.on {
+        let config = el.config.clone();
+        let others: Vec<usize> = (2..=7usize).filter(|&m| m != el.log_n && length_admissible(&config, m)).collect();
+        return Mode {
+            multi: false,
+            config,
+            max_bits: el.log_n,
+            min_bits: None,
+            supported: vec![el.log_n],
+            others,
+            verifier_params: None,
+            labels: vec!["mode:fixed".into()],
+        };
+    }
+    let rm = &case.multi;
+    let a = 1 + frac(rm.a, 4);
+    let r = (1 + frac(rm.r, 3)).max(min_rate_bits(el.def.degree));
+    let f_lo = a.saturating_sub(2);
+    let f_hi = 2 + a - r.min(2 + a); // cap_base = f+2+r-a <= 4
+    let f_hi = f_hi.max(f_lo);
+    let f = f_lo + frac(rm.f, f_hi - f_lo + 1);
+    let cap_base = f + 2 + r - a;
+    // three out of four cases use the minimal cap (every length supported)
+    let extra_max = (a - 1).min(4usize.saturating_sub(cap_base));
+    let extra = if rm.extra % 4 == 3 { frac(rm.extra, extra_max + 1) } else { 0 };
+    let cap = cap_base + extra;
+    let min_bits = (cap + 1).saturating_sub(r).max(2);
+    let mut ms: Vec<usize> = (0..).map(|k| f + 1 + a * k).take_while(|&m| m <= MAX_M).filter(|&m| m >= min_bits).collect();
+    if ms.is_empty() {
+        ms.push(f + 1 + a * (min_bits.saturating_sub(f + 1)).div_ceil(a));
+    }
+    // biased towards the longer maxima (more shorter lengths to verify with one circuit)
+    let max_bits = ms[((frac(rm.k, ms.len() * ms.len()) as f64).sqrt() as usize).min(ms.len() - 1)];
+    let fc0 = &el.config.fri_config;
+    let fri_config = FriConfig {
+        rate_bits: r,
+        cap_height: cap,
+        proof_of_work_bits: fc0.proof_of_work_bits,
+        reduction_strategy: FriReductionStrategy::ConstantArityBits(a, f),
+        num_query_rounds: fc0.num_query_rounds,
+    };
+    let security_bits = (fc0.num_query_rounds * r + fc0.proof_of_work_bits as usize).min(100);
+    let config = StarkConfig::new(security_bits, el.config.num_challenges, fri_config);
+    let vp = config.fri_params(max_bits);
+    let supported: Vec<usize> = (min_bits..=max_bits)
+        .filter(|&m| {
+            length_admissible(&config, m) && {
+                let p = config.fri_params(m);
+                p.final_poly_bits() <= f + 1 && p.reduction_arity_bits.len() <= vp.reduction_arity_bits.len()
+            }
+        })
+        .collect();
+    Mode {
+        multi: true,
+        labels: vec![
+            "mode:multi".into(),
+            format!("multi:arity{}", a),
+            format!("multi:max{}", max_bits),
+            format!("multi:steps{}", vp.reduction_arity_bits.len()),
+            format!("multi:supported{}", supported.len()),
+            format!("multi:cap_extra{}", extra),
+            format!("rate{}", r),
+            format!("cap{}", cap),
+        ],
+        config,
+        max_bits,
+        min_bits: Some(min_bits),
+        supported,
+        others: vec![],
+        verifier_params: Some(vp),
+    }
+}
+
+// ------------------------------------------------------------------------------------------
+// outer circuit, witness generation, O-sat
+// ------------------------------------------------------------------------------------------
+
+struct Outer {
+    data: CircuitData<F, PC, D>,
+    instances: Vec<GateInstance<F, D>>,
+    pt: StarkProofWithPublicInputsTarget<D>,
+    zero: Target,
+    pih: HashOut<F>,
+}
+
+fn build_outer<const COLS: usize, const PIS: usize>(stark: &GenStark<COLS, PIS>, mode: &Mode) -> Result<Outer, String> {
+    catch(|| {
+        let mut builder = CircuitBuilder::<F, D>::new(CircuitConfig::standard_recursion_config());
+        let zero = builder.zero();
+        let pt = add_virtual_stark_proof_with_pis(&mut builder, stark, &mode.config, mode.max_bits, 0, 0);
+        verify_stark_proof_circuit::<F, PC, GenStark<COLS, PIS>, D>(&mut builder, stark.clone(), pt.clone(), &mode.config, mode.min_bits);
+        let data = builder.build::<PC>();
+        // recorded by `build` on this thread
+        let instances = take_gate_instances::<F, D>().expect("gate-instance recorder");
+        let pih = <<PC as GenericConfig<D>>::InnerHasher as Hasher<F>>::hash_no_pad(&[]);
+        Outer { data, instances, pt, zero, pih }
+    })
+}
+
+fn sat_report(outer: &Outer, pw: &PartitionWitness<F>) -> sat::SatReport {
+    let copy = PartitionWitness {
+        values: pw.values.clone(),
+        representative_map: pw.representative_map,
+        num_wires: pw.num_wires,
+        degree: pw.degree,
+    };
+    let matrix = copy.full_witness();
+    let common = &outer.data.common;
+    sat::check(
+        &outer.instances,
+        &matrix,
+        &outer.pih,
+        &outer.data.prover_only.representative_map,
+        common.config.num_wires,
+        common.config.num_routed_wires,
+    )
+}
+
+/// The library's generation loop, except that a value conflicting with an already populated copy
+/// class is dropped (first value wins) and a panicking generator is retired. Returns the witness
+/// and (conflicts, generator panics). Inputs are applied in target order (not hash-map order).
+fn forgiving_witness<'a>(
+    inputs: &PartialWitness<F>,
+    po: &'a ProverOnlyCircuitData<F, PC, D>,
+    common: &'a CommonCircuitData<F, D>,
+) -> (PartitionWitness<'a, F>, usize, usize) {
+    let num_wires = common.config.num_wires;
+    let degree = common.degree();
+    let mut witness = PartitionWitness::new(num_wires, degree, &po.representative_map);
+    let mut conflicts = 0usize;
+    let mut panics = 0usize;
+    let mut ins: Vec<(usize, Target, F)> = inputs.target_values.iter().map(|(&t, &v)| (t.index(num_wires, degree), t, v)).collect();
+    ins.sort_by_key(|e| e.0);
+    for (_, t, v) in ins {
+        if witness.set_target(t, v).is_err() {
+            conflicts += 1;
+        }
+    }
+    let generators = &po.generators;
+    let mut pending: Vec<usize> = (0..generators.len()).collect();
+    let mut expired = vec![false; generators.len()];
+    let mut buffer = GeneratedValues::empty();
+    while !pending.is_empty() {
+        let mut next = Vec::new();
+        for &gi in &pending {
+            if expired[gi] {
+                continue;
+            }
+            let finished = match catch(|| generators[gi].0.run(&witness, &mut buffer)) {
+                Ok(f) => f,
+                Err(_) => {
+                    panics += 1;
+                    buffer.target_values.clear();
+                    true
+                }
+            };
+            if finished {
+                expired[gi] = true;
+            }
+            let mut new_reps = Vec::with_capacity(buffer.target_values.len());
+            for (t, v) in buffer.target_values.drain(..) {
+                match witness.set_target_returning_rep(t, v) {
+                    Ok(reps) => new_reps.extend(reps),
+                    Err(_) => conflicts += 1,
+                }
+            }
+            for rep in new_reps {
+                if let Some(ws) = po.generator_indices_by_watches.get(&rep) {
+                    for &w in ws {
+                        if !expired[w] {
+                            next.push(w);
+                        }
+                    }
+                }
+            }
+        }
+        pending = next;
+    }
+    (witness, conflicts, panics)
+}
+
+/// Run the real outer prover on a witness the oracle judged violating; Err iff its proof verifies.
+fn outer_attempt(outer: &Outer, pw: PartitionWitness<F>, st: &mut Stats) -> Result<&'static str, String> {
+    let data = &outer.data;
+    let res = catch(|| prove_with_partition_witness(&data.prover_only, &data.common, pw, &mut TimingTree::default()));
+    st.evals(1);
+    match res {
+        Err(_) => Ok("outer_prover_panicked"),
+        Ok(Err(_)) => Ok("outer_prover_err"),
+        Ok(Ok(proof)) => {
+            if catch(|| data.verify(proof)).map(|r| r.is_ok()).unwrap_or(false) {
+                return Err("the OUTER proof built from a violating witness VERIFIES".into());
+            }
+            Ok("outer_proof_rejected")
+        }
+    }
+}
+
+// ------------------------------------------------------------------------------------------
+// the property
+// ------------------------------------------------------------------------------------------
+
+struct Honest {
+    proof: Proof,
+    tree: Value,
+    leaves: Vec<Path>,
+    /// (class, indices into `leaves`), sorted by class name
+    classes: Vec<(String, Vec<usize>)>,
+    trace: Vec<Vec<F>>,
+    pis: Vec<F>,
+}
+
+fn short_class(c: &str) -> String {
+    c.replace("proof.opening_proof.", "fri.").replace("proof.openings.", "openings.").replace("proof.", "").replace("query_round_proofs[]", "q[]")
+}
+
+struct Run<'a, const COLS: usize, const PIS: usize> {
+    case: &'a Case,
+    lim: StarkLimits,
+    stark: GenStark<COLS, PIS>,
+    mode: Mode,
+    outer: Outer,
+    honest: BTreeMap<(usize, bool), Option<Honest>>,
+    outer_honest_budget: usize,
+    proved_lengths: Vec<usize>,
+}
+
+impl<'a, const COLS: usize, const PIS: usize> Run<'a, COLS, PIS> {
+    fn prove_trace(&self, trace: &[Vec<F>], pis: &[F], padded: bool, knobs: Knobs) -> Result<anyhow::Result<Proof>, String> {
+        let cols = trace_columns(trace, COLS);
+        let vp = if padded { self.mode.verifier_params.clone() } else { None };
+        set_knobs(knobs);
+        let r = catch(|| prove::<F, PC, GenStark<COLS, PIS>, D>(self.stark.clone(), &self.mode.config, cols, pis, vp, &mut TimingTree::default()));
+        reset_knobs();
+        r
+    }
+
+    /// Honest proof for a trace of 2^m rows (`padded`: with the circuit's FRI parameters, as the
+    /// multi-degree mode requires). Cached.
+    fn honest(&mut self, m: usize, padded: bool) -> Result<&Honest, String> {
+        if !self.honest.contains_key(&(m, padded)) {
+            let lim = StarkLimits {
+                min_log_n: m,
+                max_log_n: m,
+                ..self.lim
+            };
+            let el = elaborate_stark(&self.case.stark, &lim);
+            if el.def.constraints != self.stark.def.constraints || el.log_n != m {
+                return Err("generator bug: the definition depends on the trace length".into());
+            }
+            let proof = self
+                .prove_trace(&el.trace, &el.pis, padded, Knobs::default())
+                .map_err(|p| format!("STARK prover PANICKED on a satisfying trace (log_n {}, {:?}): {}", m, self.mode.labels, p))?
+                .map_err(|e| format!("STARK prover failed on a satisfying trace (log_n {}, {:?}): {:#}", m, self.mode.labels, e))?;
+            let tree = to_tree(&proof);
+            let leaves = numeric_leaves(&tree);
+            let mut by: BTreeMap<String, Vec<usize>> = BTreeMap::new();
+            for (i, p) in leaves.iter().enumerate() {
+                by.entry(short_class(&class_of(p))).or_default().push(i);
+            }
+            let h = Honest {
+                proof,
+                tree,
+                leaves,
+                classes: by.into_iter().collect(),
+                trace: el.trace,
+                pis: el.pis,
+            };
+            self.honest.insert((m, padded), Some(h));
+        }
+        Ok(self.honest[&(m, padded)].as_ref().unwrap())
+    }
+
+    /// (query indices, proof-of-work response) the native transcript derives for `proof` — used only to
+    /// *search* for adversarial inputs, never to judge.
+    fn challenges(&self, proof: &Proof) -> Result<(Vec<usize>, u64), String> {
+        use plonky2::field::types::PrimeField64;
+        let mut challenger = Challenger::<F, <PC as GenericConfig<D>>::Hasher>::new();
+        let ch = catch(|| proof.get_challenges(&self.stark, &mut challenger, None, None, false, &self.mode.config, self.mode.verifier_params.clone()))
+            .map_err(|p| format!("native challenge derivation panicked: {}", p))?;
+        Ok((ch.fri_challenges.fri_query_indices.clone(), ch.fri_challenges.fri_pow_response.to_canonical_u64()))
+    }
+
+    /// Compare the two verifiers on one proof. `told` is the `degree_bits` value assigned to the circuit.
+    fn judge(&mut self, proof: &Proof, told: usize, class: &str, honest: bool, spec: &RawProof, idx: usize, st: &mut Stats) -> Result<(), String> {
+        let chash = hash_of(&self.case.stark) ^ hash_of(&self.case.multi) ^ hash_of(&self.case.lookups);
+        // shape-changed proofs: the library's assignment routines zero-pad short components, so the verdicts are
+        // compared and reported in the histogram but a difference is not asserted
+        let asserted = !class.starts_with("shape:");
+        st.evals(1);
+        // ---- native ----
+        let pdeg = catch(|| proof.proof.recover_degree_bits(&self.mode.config)).ok();
+        let nat = catch(|| verify_stark_proof(self.stark.clone(), proof.clone(), &self.mode.config, self.mode.verifier_params.clone()));
+        let (native_ok, native_name) = match &nat {
+            Ok(Ok(())) => (true, "accept"),
+            Ok(Err(_)) => (false, "reject"),
+            Err(_) => (false, "reject_panicked"),
+        };
+        let length_ok = pdeg.map(|d| self.mode.supported.contains(&d)).unwrap_or(false);
+        let told_ok = pdeg == Some(told);
+        let expected = native_ok && length_ok && told_ok;
+        let native_label = if native_ok && !length_ok {
+            "accept_but_other_length"
+        } else if native_ok && !told_ok {
+            "accept_but_told_wrong_degree"
+        } else {
+            native_name
+        };
+        if honest && !native_ok {
+            return Err(format!(
+                "the native verifier rejects an HONEST proof ({}; log_n {:?}, {:?}): {:?}",
+                class, pdeg, self.mode.labels, nat
+            ));
+        }
+        // ---- circuit ----
+        let outer = &self.outer;
+        let data = &outer.data;
+        let mut inputs = PartialWitness::<F>::new();
+        let assigned = catch(|| set_stark_proof_with_pis_target(&mut inputs, &outer.pt, proof, told, outer.zero));
+        let mut circuit_ok = false;
+        let mut kind: String;
+        let mut violating: Option<PartitionWitness<F>> = None;
+        let mut satisfying: Option<PartitionWitness<F>> = None;
+        match assigned {
+            Err(_) => kind = "assign_panicked".into(),
+            Ok(Err(_)) => kind = "assign_err".into(),
+            Ok(Ok(())) => match catch(|| generate_partial_witness(inputs.clone(), &data.prover_only, &data.common)) {
+                Ok(Ok(pw)) => {
+                    let rep = sat_report(outer, &pw);
+                    if rep.clean() {
+                        circuit_ok = true;
+                        kind = "accept".into();
+                        satisfying = Some(pw);
+                    } else {
+                        kind = format!("sat:{}", rep.kinds().into_iter().collect::<Vec<_>>().join("+"));
+                        violating = Some(pw);
+                    }
+                }
+                other => {
+                    kind = if other.is_err() { "witgen_panicked".into() } else { "witgen_conflict".into() };
+                    // conflict-tolerant witness: which constraint does the assignment break?
+                    let (fw, conflicts, panics) = forgiving_witness(&inputs, &data.prover_only, &data.common);
+                    let rep = sat_report(outer, &fw);
+                    if rep.clean() {
+                        if conflicts == 0 && panics == 0 {
+                            return Err(format!(
+                                "generate_partial_witness failed but an identical re-run succeeds with a satisfied circuit ({}, {:?})",
+                                class, self.mode.labels
+                            ));
+                        }
+                        if !expected && asserted {
+                            return Err(format!(
+                                "the OUTER CIRCUIT IS SATISFIABLE for a proof the native verifier rejects: witness generation reported a conflict, \
+                                 yet keeping the first value of each conflicting class satisfies every gate row and copy class \
+                                 ({}; native {}; told {} proof log_n {:?}; {:?})",
+                                class, native_label, told, pdeg, self.mode.labels
+                            ));
+                        }
+                        kind.push_str("+sat:clean");
+                    } else {
+                        kind.push_str(&format!("+sat:{}", rep.kinds().into_iter().collect::<Vec<_>>().join("+")));
+                        violating = Some(fw);
+                    }
+                }
+            },
+        }
+        st.label(&format!("{} | native={} | circuit={}", class, native_label, kind));
+        if std::env::var("PV_TRACE").is_ok() {
+            eprintln!("[trace] #{} {} told {} pdeg {:?} native {} circuit {}", idx, class, told, pdeg, native_label, kind);
+        }
+        if expected != circuit_ok && !asserted {
+            st.label(&format!("UNASSERTED shape-edit difference: {} | native={} | circuit={}", class, native_label, kind));
+            st.sample(|| json!({"unasserted_shape_difference": class, "native": native_label, "circuit": kind, "told": told, "proof_log_n": pdeg,
+                                "mode": self.mode.labels, "config": format!("{:?}", self.mode.config)}));
+            return Ok(());
+        }
+        if expected != circuit_ok {
+            return Err(format!(
+                "native and in-circuit STARK verifiers DISAGREE on proof #{} ({}): native {} (expected circuit verdict: {}), circuit {} \
+                 [told degree_bits {}, proof log_n {:?}, circuit max {} min {:?}, {:?}, config {:?}]",
+                idx,
+                class,
+                native_label,
+                if expected { "accept" } else { "reject" },
+                kind,
+                told,
+                pdeg,
+                self.mode.max_bits,
+                self.mode.min_bits,
+                self.mode.labels,
+                self.mode.config
+            ));
+        }
+        // ---- non-trivial cases, ties to the real outer argument ----
+        let shorter = self.mode.multi && pdeg.map(|d| d < self.mode.max_bits).unwrap_or(false);
+        if shorter && circuit_ok {
+            st.label("accepted_shorter_than_max");
+        }
+        if shorter || (!expected && !kind.starts_with("assign")) {
+            st.nontrivial(&(chash, idx, spec));
+        }
+        if circuit_ok {
+            let d = pdeg.unwrap_or(0);
+            if honest && self.outer_honest_budget > 0 && !self.proved_lengths.contains(&d) {
+                self.outer_honest_budget -= 1;
+                self.proved_lengths.push(d);
+                let pw = satisfying.take().unwrap();
+                st.evals(1);
+                let p = catch(|| prove_with_partition_witness(&data.prover_only, &data.common, pw, &mut TimingTree::default()))
+                    .map_err(|p| format!("outer prover PANICKED on an honest inner proof (log_n {}): {}", d, p))?
+                    .map_err(|e| format!("outer prover failed on an honest inner proof (log_n {}): {:#}", d, e))?;
+                catch(|| data.verify(p))
+                    .map_err(|p| format!("outer verifier panicked: {}", p))?
+                    .map_err(|e| format!("outer proof of an honest inner proof (log_n {}) rejected: {:#}", d, e))?;
+                st.label("outer_prove_verify_ok");
+            }
+        } else if let Some(pw) = violating {
+            if spec.sample < SAMPLE_OUTER {
+                let o = outer_attempt(outer, pw, st).map_err(|m| format!("{} ({}, native {}, circuit {}, {:?})", m, class, native_label, kind, self.mode.labels))?;
+                st.label(o);
+            }
+        }
+        Ok(())
+    }
+
+    fn one(&mut self, idx: usize, spec: &RawProof, st: &mut Stats) -> Result<(), String> {
+        let sup = self.mode.supported.clone();
+        let m = sup[frac(spec.len, sup.len())];
+        let multi = self.mode.multi;
+        let max_bits = self.mode.max_bits;
+        match spec.kind % 20 {
+            // ---- honest ----
+            0 | 1 => {
+                let p = self.honest(m, multi)?.proof.clone();
+                self.judge(&p, m, "honest", true, spec, idx, st)
+            }
+            // ---- value edit at a numeric leaf of a chosen component class ----
+            2..=8 => {
+                let h = self.honest(m, multi)?;
+                let (cname, members) = &h.classes[frac(spec.cls, h.classes.len())];
+                let path = h.leaves[members[frac32(spec.pos, members.len())]].clone();
+                let e = match spec.ekind % 4 {
+                    0 => ValueEdit::Plus1,
+                    1 => ValueEdit::Zero,
+                    2 => ValueEdit::Minus1,
+                    _ => ValueEdit::Set(spec.val),
+                };
+                let mut tree = h.tree.clone();
+                let cname = cname.clone();
+                edit_value(&mut tree, &path, e, P);
+                let p2: Result<Proof, _> = Deserialize::deserialize(&tree);
+                let Ok(p2) = p2 else {
+                    st.label("edit_not_deserialisable");
+                    return Ok(());
+                };
+                self.judge(&p2, m, &format!("edit:{}", cname), false, spec, idx, st)
+            }
+            // ---- final-polynomial coefficient edited by a grinding adversary: the value is searched so that the
+            //      re-derived query indices stay the same and the proof-of-work still passes; then the
+            //      final-polynomial evaluation is the only check left to fail ----
+            9 => {
+                let mut p = self.honest(m, multi)?.proof.clone();
+                let fc = self.mode.config.fri_config.clone();
+                let n_coeffs = p.proof.opening_proof.final_poly.coeffs.len();
+                if n_coeffs == 0 {
+                    st.label("empty_final_poly");
+                    return Ok(());
+                }
+                let ci = frac(spec.cls, n_coeffs);
+                let limb = (spec.ekind % 2) as usize;
+                let space_bits = (m + fc.rate_bits) * fc.num_query_rounds + fc.proof_of_work_bits as usize;
+                let tries: u64 = if space_bits <= 11 { 1 << (space_bits + 2) } else { 1 };
+                let ch0 = self.challenges(&p)?;
+                let old = p.proof.opening_proof.final_poly.coeffs[ci].0[limb];
+                let mut found = false;
+                for j in 0..tries {
+                    let v = F::from_canonical_u64((spec.val % P + j) % P);
+                    if v == old {
+                        continue;
+                    }
+                    p.proof.opening_proof.final_poly.coeffs[ci].0[limb] = v;
+                    if tries == 1 {
+                        break;
+                    }
+                    let ch = self.challenges(&p)?;
+                    if ch.0 == ch0.0 && ch.1.leading_zeros() >= fc.proof_of_work_bits {
+                        found = true;
+                        break;
+                    }
+                }
+                if p.proof.opening_proof.final_poly.coeffs[ci].0[limb] == old {
+                    p.proof.opening_proof.final_poly.coeffs[ci].0[limb] = old + F::ONE;
+                }
+                let class = if found { "grind:final_poly_same_queries" } else { "edit:fri.final_poly.coeffs[][]" };
+                self.judge(&p, m, class, false, spec, idx, st)
+            }
+            // ---- wrong public inputs ----
+            10 => {
+                let mut p = self.honest(m, multi)?.proof.clone();
+                if PIS == 0 {
+                    st.label("no_public_inputs");
+                    return Ok(());
+                }
+                let k = spec.col as usize % PIS;
+                let v = F::from_canonical_u64(spec.val % P);
+                p.public_inputs[k] = if p.public_inputs[k] == v { v + F::ONE } else { v };
+                self.judge(&p, m, "wrong_public_input", false, spec, idx, st)
+            }
+            // ---- proof emitted by the real prover for a corrupted trace ----
+            11 | 12 => {
+                let h = self.honest(m, multi)?;
+                let mut trace = h.trace.clone();
+                let mut pis = h.pis.clone();
+                let n = trace.len();
+                let row = match spec.row_class % 5 {
+                    0 => 0,
+                    1 => n - 1,
+                    2 => n - 2,
+                    _ => frac32(spec.row, n),
+                };
+                let v = F::from_canonical_u64(spec.val % P);
+                if spec.ekind % 5 == 0 && PIS > 0 {
+                    let k = spec.col as usize % PIS;
+                    pis[k] = if pis[k] == v { v + F::ONE } else { v };
+                } else {
+                    let c = spec.col as usize % COLS;
+                    trace[row][c] = if trace[row][c] == v { v + F::ONE } else { v };
+                }
+                let viol = !violations(&self.stark.def, &trace, &pis).is_empty();
+                let mut k = Knobs::default();
+                k.lenient_quotient = true;
+                match self.prove_trace(&trace, &pis, multi, k) {
+                    Ok(Ok(p)) => self.judge(&p, m, if viol { "violating_trace" } else { "benign_trace_change" }, false, spec, idx, st),
+                    _ => {
+                        st.label("violating_trace: prover refused");
+                        Ok(())
+                    }
+                }
+            }
+            // ---- a proof of another length / without the padding the circuit expects ----
+            13 | 14 => {
+                if multi {
+                    // generated without the circuit's FRI parameters: its transcript lacks the zero padding
+                    let p = self.honest(m, false)?.proof.clone();
+                    let class = if m == max_bits { "unpadded_proof_max_length" } else { "unpadded_proof" };
+                    self.judge(&p, m, class, false, spec, idx, st)
+                } else {
+                    let others = self.mode.others.clone();
+                    if others.is_empty() {
+                        st.label("no_other_length_admissible");
+                        return Ok(());
+                    }
+                    let m2 = others[frac(spec.len, others.len())];
+                    let p = self.honest(m2, false)?.proof.clone();
+                    let told = if spec.told % 2 == 0 { m2 } else { max_bits };
+                    let class = if m2 < max_bits { "other_length_shorter" } else { "other_length_longer" };
+                    self.judge(&p, told, class, false, spec, idx, st)
+                }
+            }
+            // ---- honest proof, wrong degree_bits told to the circuit ----
+            15 | 16 => {
+                let p = self.honest(m, multi)?.proof.clone();
+                let mut cands: Vec<usize> = sup.iter().copied().filter(|&t| t != m).collect();
+                let class;
+                let told = if !cands.is_empty() && spec.told % 4 != 3 {
+                    class = "told_other_supported_degree";
+                    cands[frac(spec.told, cands.len())]
+                } else {
+                    class = "told_unsupported_degree";
+                    cands = vec![0, 1, m + 1, max_bits + 1, m + 96, m + 192, 64, m.saturating_sub(1)];
+                    cands.retain(|&t| t != m && !sup.contains(&t));
+                    cands[frac(spec.told, cands.len())]
+                };
+                self.judge(&p, told, class, false, spec, idx, st)
+            }
+            // ---- shape edit of one container of the proof (reported, not asserted) ----
+            19 => {
+                let h = self.honest(m, multi)?;
+                let cs = containers(&h.tree);
+                let (path, _, _) = cs[frac32(spec.pos, cs.len())].clone();
+                let e = ShapeEdit::ALL[spec.ekind as usize % 4];
+                let mut tree = h.tree.clone();
+                if !edit_shape(&mut tree, &path, e) {
+                    st.label("shape_edit_noop");
+                    return Ok(());
+                }
+                let p2: Result<Proof, _> = Deserialize::deserialize(&tree);
+                let Ok(p2) = p2 else {
+                    st.label("shape_edit_not_deserialisable");
+                    return Ok(());
+                };
+                self.judge(&p2, m, &format!("shape:{}:{}", short_class(&class_of(&path)), e.name()), false, spec, idx, st)
+            }
+            // ---- proof-of-work witness chosen without grinding (everything else consistent) ----
+            _ => {
+                let (trace, pis) = {
+                    let h = self.honest(m, multi)?;
+                    (h.trace.clone(), h.pis.clone())
+                };
+                let mut k = Knobs::default();
+                k.pow_witness = Some(spec.val % P);
+                match self.prove_trace(&trace, &pis, multi, k) {
+                    Ok(Ok(p)) => self.judge(&p, m, "pow_witness_override", false, spec, idx, st),
+                    _ => {
+                        st.label("pow_witness_override: prover refused");
+                        Ok(())
+                    }
+                }
+            }
+        }
+    }
+}
+
+fn run_shape<const COLS: usize, const PIS: usize>(case: &Case, el: &ElabStark, lim: StarkLimits, st: &mut Stats) -> Result<(), String> {
+    let mut def = el.def.clone();
+    def.lookups = elaborate_lookups(&case.lookups, COLS, &el.roles);
+    let mode = elaborate_mode(case, el);
+    for l in el.labels.iter().filter(|l| !mode.multi || !(l.starts_with("fri_") || l.starts_with("rate") || l.starts_with("cap") || l.starts_with("log_n"))) {
+        st.label(l);
+    }
+    for l in &mode.labels {
+        st.label(l);
+    }
+    st.label(&format!("lookups{}", def.lookups.len()));
+    st.label(&format!("pow_bits{}", mode.config.fri_config.proof_of_work_bits));
+    st.label(&format!("queries{}", mode.config.fri_config.num_query_rounds));
+    if mode.supported.is_empty() {
+        return Err(format!("generator bug: no supported length ({:?})", mode.labels));
+    }
+    let stark = GenStark::<COLS, PIS> { def: Arc::new(def) };
+    let outer = build_outer(&stark, &mode).map_err(|p| format!("building the outer circuit PANICKED ({:?}, config {:?}): {}", mode.labels, mode.config, p))?;
+    let rows = outer.data.common.degree_bits();
+    st.label(&format!("outer_rows_2^{}", rows));
+    let mut run = Run {
+        case,
+        lim,
+        stark,
+        mode,
+        outer,
+        honest: BTreeMap::new(),
+        outer_honest_budget: 2,
+        proved_lengths: vec![],
+    };
+    // every supported length at least once, honestly (the longest first)
+    let sup = run.mode.supported.clone();
+    let multi = run.mode.multi;
+    let base = RawProof {
+        kind: 0,
+        len: 0,
+        told: 0,
+        cls: 0,
+        pos: 0,
+        ekind: 0,
+        val: 0,
+        row_class: 0,
+        row: 0,
+        col: 0,
+        sample: 255,
+    };
+    for (i, &m) in sup.iter().rev().enumerate() {
+        let p = run.honest(m, multi)?.proof.clone();
+        run.judge(&p, m, "honest", true, &base, 10_000 + i, st)?;
+    }
+    for (i, spec) in case.proofs.iter().enumerate() {
+        run.one(i, spec, st)?;
+    }
+    st.sample(|| {
+        json!({"labels": el.labels, "mode": run.mode.labels, "supported": run.mode.supported, "lookups": run.stark.def.lookups.len(),
+               "constraints": run.stark.def.constraints.len(), "outer_degree_bits": rows, "config": format!("{:?}", run.mode.config)})
+    });
+    Ok(())
+}
+
+fn prop(c: &Case, st: &mut Stats) -> Result<(), String> {
+    let lim = limits(!c.lookups.is_empty());
+    let el = elaborate_stark(&c.stark, &lim);
+    with_stark_shape!(el.shape, run_shape, c, &el, lim, st)
+}
 
 pub fn run(ctx: &mut Ctx) {
-    let _ = ctx;
+    ctx.level = "exploration";
+    ctx.rule = "run-time STARK definition (1-16 columns, declared degree 1..9, 0-4 public inputs, with 0-2 always-satisfied logUp lookups) x StarkConfig \
+                (1-6 queries, 0-4 grinding bits, 1-3 challenges, all three reduction strategies in fixed-degree mode; the ConstantArityBits family \
+                admissible for multi-degree verification otherwise) -> ONE outer circuit (standard recursion config) embedding the STARK verifier, \
+                fed with: honest proofs of every supported length, value edits at a numeric leaf of every component class, wrong public inputs, \
+                proofs the real prover emitted for a corrupted trace, proofs of another length / without the transcript padding, a wrong degree_bits \
+                assignment, a proof-of-work witness chosen without grinding, a final-polynomial coefficient ground so that the query indices stay \
+                the same, and (reported but not asserted) shape edits; verdicts of verify_stark_proof and of (assignment + witness generation + \
+                O-sat) must agree; non-trivial = multi-degree case with a proof shorter than the maximum, or a natively rejected proof whose \
+                assignment succeeded so that the circuit's verdict comes from its constraints; distinct = (definition, config, proof spec)"
+        .into();
+    ctx.assumptions.push("inner hashing is Poseidon (the recursive verifier needs an algebraic hasher); the outer circuit uses CircuitConfig::standard_recursion_config()".into());
+    ctx.assumptions.push(
+        "multi-degree mode is exercised only inside the family the library asserts/documents: ConstantArityBits(a,f), cap_height in (f+1+r-a, f+1+r], \
+         maximum degree_bits = f+1 (mod a), min_degree_bits_to_support + r > cap_height, proof lengths whose final polynomial and step count fit the circuit"
+            .into(),
+    );
+    ctx.assumptions.push(
+        "a proof whose length differs from the one told to the circuit, or is not supported by it, is expected to be rejected by the circuit \
+         (the native verifier derives the length from the proof itself)"
+            .into(),
+    );
+    ctx.assumptions.push("satisfaction oracle trusts each gate's own eval_unfiltered (judged by C07) and the builder's copy classes".into());
+    ctx.shrink_iters = 6;
+    let (cases, proofs) = ctx.tier.pick((70, 40), (500, 300));
+    ctx.run_sub("circuit_vs_native", cases, 14, move || case(proofs), prop);
 }
